@@ -35,7 +35,7 @@ package sharding
 //@   ensures [put-failure-is-an-error] addManyN == old(addManyN) + 1 && addManyOK == old(addManyOK) ==> err != nil
 //@   at_call adder.Pin assert [shard-entry] pin.Type == api.ShardType && pin.Allocations == sh.allocations && pin.Cid == rootCid && pin.MaxDepth == ite(len(nodes) > len(sh.dagNode) + 1, 2, 1)
 //@   ensures [existing-cid-boxes-untouched] forall q *cid.Cid :: !fresh(q) ==> *q == old(*q)
-//@   modifies rpcN, rpcLastSvc, rpcLastMethod, rpcLastArg, addManyN, addManyOK, clusterPinN, heap(api.Pin), heap(cid.Cid)
+//@   modifies rpcN, rpcLastSvc, rpcLastMethod, rpcLastArg, addManyN, addManyOK, lastPutList, clusterPinN, heap(api.Pin), heap(cid.Cid)
 
 // flushing the current shard: verified for its bookkeeping (a failed flush registers nothing; a successful one files
 // the shard under the next index and starts a new shard)
@@ -46,7 +46,7 @@ package sharding
 //@   ensures [failed-flush-registers-nothing] err != nil ==> dgs.shards == old(dgs.shards) && dgs.currentShard == old(dgs.currentShard)
 //@   ensures [flushed-shard-registered] err == nil ==> dgs.currentShard == nil && len(dgs.shards) >= len(old(dgs.shards))
 //@   ensures [existing-cid-boxes-untouched] forall q *cid.Cid :: !fresh(q) ==> *q == old(*q)
-//@   modifies rpcN, rpcLastSvc, rpcLastMethod, rpcLastArg, addManyN, addManyOK, clusterPinN, heap(api.Pin), heap(cid.Cid), heap(DAGService), heap(api.AddedOutput)
+//@   modifies rpcN, rpcLastSvc, rpcLastMethod, rpcLastArg, addManyN, addManyOK, lastPutList, clusterPinN, heap(api.Pin), heap(cid.Cid), heap(DAGService), heap(api.AddedOutput)
 
 // "for sharded adds a meta entry, a cluster-DAG entry ...": Finalize pins exactly these two, the cluster DAG first
 // (pinned everywhere, direct, referencing the data root) and the meta entry (referencing the cluster DAG) only after
@@ -59,6 +59,7 @@ package sharding
 //@   at_call adder.Pin assert [cluster-dag-entry] pin.Type == api.ClusterDAGType ==> pin.Cid == clusterDAG && pin.ReplicationFactorMin == -1 && pin.ReplicationFactorMax == -1 && pin.MaxDepth == 0 && pin.Reference != nil && *pin.Reference == dataRoot
 //@   at_call adder.Pin assert [meta-entry] pin.Type == api.MetaType ==> pin.Cid == dataRoot && pin.Reference != nil && *pin.Reference == clusterDAG
 //@   ensures [failure-returns-an-error] err == nil ==> res == dataRoot
+//@   ensures [the-whole-cluster-dag-is-delivered] err == nil ==> lastPutList == clusterDAGNodes
 //@   modifies *
 
 // ---- "each shard under the size limit": a block is linked into the current shard only if the shard stays under its
